@@ -2,8 +2,8 @@
    Model: Model/Dates.v (xsdata/utils/dates.py, xsdata/models/datatype.py);
    specification: Spec/XsdDates.v (XSD 1.1 lexical spaces, Gregorian calendar, timeline). *)
 From Coq Require Import NArith ZArith List Bool.
-From XV Require Import Base.Str Model.Dates Model.DatesCorr Spec.XsdDates
-  Proofs.DatesCal Proofs.DatesParse Proofs.DatesFormat Proofs.DatesOrder Proofs.DatesDuration Proofs.DatesPeriod.
+From XV Require Import Base.Str Model.Dates Model.DatesStd Model.DatesCorr Spec.XsdDates
+  Proofs.DatesCal Proofs.DatesParse Proofs.DatesFormat Proofs.DatesOrder Proofs.DatesDuration Proofs.DatesPeriod Proofs.DatesStd.
 Import ListNotations.
 Open Scope Z_scope.
 
@@ -135,6 +135,51 @@ Theorem C06_timeline_is_the_calendar : forall y m d,
   real_date y' m' d' = true /\ days_from_civil y' m' d' = days_from_civil y m d + 1.
 Proof. exact days_from_civil_next. Qed.
 Print Assumptions C06_timeline_is_the_calendar.
+
+(* 6. conversions to and from the standard library's date/time objects preserve the instant.  A stdlib
+      object is the tuple of the fields its constructor received (Model/DatesStd.v), its instant is the
+      specification's timeline in microseconds; the check ties both to CPython on every generated case. *)
+Theorem C06_datetime_to_std : forall v,
+  valid_datetime_value v = true -> dt_std_range v = true ->
+  exists p, datetime_to_std v = Some p
+            /\ pydt_instant_us p = dt_instant v / 1000
+            /\ (dt_frac v mod 1000 = 0 -> pydt_instant_us p * 1000 = dt_instant v /\ datetime_from_std p = v).
+Proof. exact datetime_to_std_all. Qed.
+Print Assumptions C06_datetime_to_std.
+
+Theorem C06_datetime_from_std : forall p, pydt_ok p = true ->
+  datetime_to_std (datetime_from_std p) = Some p /\ dt_instant (datetime_from_std p) = pydt_instant_us p * 1000.
+Proof. exact datetime_from_std_roundtrip. Qed.
+Print Assumptions C06_datetime_from_std.
+
+Theorem C06_time_to_std : forall v,
+  valid_time_value v = true -> t_std_range v = true ->
+  exists q, time_to_std v = Some q
+            /\ pyt_instant_us q = t_instant' v / 1000
+            /\ (t_frac v mod 1000 = 0 -> time_from_std q = v).
+Proof. exact time_to_std_all. Qed.
+Print Assumptions C06_time_to_std.
+
+Theorem C06_time_from_std : forall q, pyt_ok q = true ->
+  time_to_std (time_from_std q) = Some q /\ t_instant' (time_from_std q) = pyt_instant_us q * 1000.
+Proof. exact time_from_std_roundtrip. Qed.
+Print Assumptions C06_time_from_std.
+
+(* XmlTime.now(tz)/utcnow() keep the zone of the datetime they are taken from (repair a863c7f) *)
+Theorem C06_time_now_keeps_zone : forall p,
+  t_offset (time_now_from p) = sd_off p
+  /\ t_instant' (time_now_from p) = time_us (sd_hour p) (sd_minute p) (sd_second p) (sd_us p) (sd_off p) * 1000.
+Proof. exact time_now_keeps_zone. Qed.
+Print Assumptions C06_time_now_keeps_zone.
+
+Theorem C06_date_std : forall v,
+  valid_date_value v = true -> d_std_range v = true ->
+  exists r p, date_to_date v = Some r /\ date_to_datetime v = Some p
+              /\ date_from_datetime p = v
+              /\ date_from_date r = mk_xdate (d_year v) (d_month v) (d_day v) None
+              /\ pydt_instant_us p = instant_us (d_year v) (d_month v) (d_day v) 0 0 0 0 (d_offset v).
+Proof. exact date_std_roundtrip. Qed.
+Print Assumptions C06_date_std.
 
 (* non-vacuity of the hypotheses above *)
 Example C06_guards_inhabited :
